@@ -434,6 +434,10 @@ def write_replay(world, summary, ops, violation, minimised_from, verif_seed, rep
         'config': summary['cfg'], 'ops': ops, 'violation': violation,
         'minimised_from': minimised_from, 'repo_commit': repo_commit,
     }
+    if sys.flags.optimize:
+        # found by the deployment pass: the interpreter was started with -O (assert statements stripped); --replay restarts itself so
+        doc['interpreter_flags'] = ['-O'] if sys.flags.optimize == 1 else ['-OO']
+        doc['violation'] = dict(violation, message='[interpreter started with %s] ' % doc['interpreter_flags'][0] + violation['message'])
     if prelude:
         # the violation appears only after these generated runs were executed in the same process (hidden state between calls)
         doc['prelude'] = prelude
